@@ -151,6 +151,20 @@ class Check:
             out.append(a)
         return out
 
+    def prove_batch_par(self, prelude, goals, timeout=30.0, chunks=4, solvers=None):
+        """like prove_batch, goals split over several portfolio races running concurrently"""
+        if len(goals) <= 2 or chunks <= 1:
+            return self.prove_batch(prelude, goals, timeout, solvers)
+        k = min(chunks, len(goals))
+        parts = [goals[i::k] for i in range(k)]
+        with ThreadPoolExecutor(max_workers=k) as ex:
+            res = list(ex.map(lambda part: self.prove_batch(prelude, part, timeout, solvers), parts))
+        out = [None] * len(goals)
+        for pi, part in enumerate(res):
+            for j, a in enumerate(part):
+                out[pi + j * k] = a
+        return out
+
     def ground(self, oid, desc, ok, detail=''):
         """a fully concrete obligation decided by direct evaluation of the encoding (no free variable)"""
         self.record(oid, desc + (' ' + detail if detail else ''), 'unsat' if ok else 'sat', 'ground', 0.0, 'unsat', kind='ground')
@@ -232,7 +246,7 @@ class Check:
 
 # ---------- replay of concrete cases against the real build ----------
 
-def go_test(case_file, pkg='root', run='TestVerifReplay', extra_overlay=None, race=False, timeout=600, tags=None):
+def go_test(case_file, pkg='root', run='TestVerif', extra_overlay=None, race=False, timeout=600, tags=None):
     """Runs replay_templates/<template> as an in-package test of /repo's current tree via -overlay.
     Returns (passed, output)."""
     ov = {'Replace': {}}
